@@ -337,14 +337,80 @@ def run(ctx, repo):
     whole_eq = [c for c in ast.walk(hr) if isinstance(c, ast.Compare) and isinstance(c.ops[0], ast.Eq) and any(
         (isinstance(x, ast.Constant) and x.value == 'r') for x in ast.walk(c.comparators[0]))
         and not (isinstance(c.left, ast.Subscript) and isinstance(c.left.value, ast.Subscript))]
+    # decided by folding has_retired over the complete domain of last cells (every string of at most three letters o x - optionally followed by r, alone
+    # or after another cell) when its body is foldable; the syntactic test above is the fallback
+    folded_bad = None
+    try:
+        import itertools
+        from .. import fold as _fold
+        # the retirement letter can only be the last of a cell (nothing is accepted after it)
+        cells = [''.join(t) + r_ for k in range(0, 4) for t in itertools.product('ox-', repeat=k) for r_ in ('', 'r')]
+        F_ = _fold.Folder()
+        def _hr(card):
+            env_ = {hr.args.args[0].arg: _fold.ObjConst({'attempts_by_height': list(card)})}
+            try:
+                for st_ in hr.body:
+                    F_.stmt(st_, env_)
+            except _fold._Return as r_:
+                return bool(r_.v)
+            return False
+        for c_ in cells:
+            for card in ([c_], ['o', c_]):
+                if _hr(card) != c_.endswith('r'):
+                    folded_bad = (card, _hr(card))
+                    break
+            if folded_bad:
+                break
+        decided = True
+    except Exception:
+        decided = False
+    if decided and appends:
+        whole_eq = whole_eq if folded_bad else []
+        suffix_test = not folded_bad
     if appends and (whole_eq or not suffix_test):
         ctx.finding('R6', '%s::%s.has_retired::whole-cell comparison' % (HJ, JUMPER), HJ, hr.lineno,
                     "retired() appends 'r' to the current cell, which can already hold failures ('xr', 'xxr'), but has_retired %s: an athlete who "
                     'retires after a failure at the same height does not count as retired, is reinstated into a jump-off and jumps again'
-                    % ('compares the whole cell with it (`%s`)' % unparse(whole_eq[0]) if whole_eq else 'does not test the end of the cell'),
+                    % ('compares the whole cell with it (`%s`)' % unparse(whole_eq[0]) if whole_eq else (
+                        'answers %s for the card %r' % (folded_bad[1], folded_bad[0]) if folded_bad else 'does not test the end of the cell')),
                     "card cell 'xr', then a tie for first")
     else:
         ctx.ok('R6', "has_retired tests the end of the cell, matching retired()'s append")
+    # `remaining` and `eliminated` partition the field: _rank decides "one athlete left" by 1 + len(eliminated) == len(jumpers), so an
+    # athlete who is in neither list (or in both) makes the competition undecidable or decided too early.  Folded over every
+    # combination of the flags a jumper carries.
+    cm_ = {f.name: f for f in mod.cls(COMP).body if isinstance(f, ast.FunctionDef)}
+    if 'remaining' in cm_ and 'eliminated' in cm_:
+        import itertools as _it
+        from .. import fold as _fold
+        flags = ('eliminated', 'has_retired', 'dismissed')
+        js_ = [_fold.ObjConst(dict(zip(flags, v), bib=str(i), _place=1, highest_cleared_index=0))
+               for i, v in enumerate(_it.product((False, True), repeat=len(flags)))]
+        def _lst(fn_):
+            env_ = {fn_.args.args[0].arg: _fold.ObjConst({'jumpers': list(js_)})}
+            try:
+                for st_ in fn_.body:
+                    _fold.Folder().stmt(st_, env_)
+            except _fold._Return as r_:
+                return list(r_.v)
+            return None
+        try:
+            rem_, eli_ = _lst(cm_['remaining']), _lst(cm_['eliminated'])
+        except Exception as e_:
+            rem_ = eli_ = None
+            ctx.info('remaining / eliminated not foldable (%s): partition not decided' % e_)
+        if rem_ is not None and eli_ is not None:
+            bad_ = [j for j in js_ if (any(x is j for x in rem_) + any(x is j for x in eli_)) != 1]
+            if bad_:
+                b_ = bad_[0]
+                ctx.finding('R6', '%s::%s::remaining and eliminated do not partition the field' % (HJ, COMP), HJ, cm_['eliminated'].lineno,
+                            'an athlete with %s is in %s: _rank counts 1 + len(eliminated) against len(jumpers) to see that one athlete is left, so the '
+                            'competition is never declared won (or is declared won too early) once such an athlete exists'
+                            % (', '.join('%s=%s' % (k, b_.attrs[k]) for k in flags),
+                               'neither list' if not (any(x is b_ for x in rem_) or any(x is b_ for x in eli_)) else 'both lists'),
+                            'one athlete retires, later a sole survivor clears')
+            else:
+                ctx.ok('R6', 'remaining and eliminated partition the jumpers for all 8 flag combinations')
     # the first bar height starts the competition unconditionally: scheduled -> started depends on nothing but the state
     sbh = [f for f in mod.cls(COMP).body if isinstance(f, ast.FunctionDef) and f.name == 'set_bar_height']
     if not sbh:
@@ -609,3 +675,29 @@ def check_failed(ctx, f):
            for tg in n.targets if isinstance(tg, ast.Attribute)}
     if ('dismissed', False) in els:
         ctx.ok('R6', 'failed() below the limit keeps the athlete in the round')
+
+
+def retired_reader_by_folding(hr):
+    """has_retired folded over every reachable last cell (at most three letters o x -, optionally followed by r; alone or after another
+    cell): None when it answers `cell ends with r` everywhere, (card, answer) for the first disagreement, 'unfoldable' otherwise"""
+    import itertools
+    from .. import fold as _fold
+    cells = [''.join(t) + r_ for k in range(0, 4) for t in itertools.product('ox-', repeat=k) for r_ in ('', 'r')]
+    F_ = _fold.Folder()
+
+    def _hr(card):
+        env_ = {hr.args.args[0].arg: _fold.ObjConst({'attempts_by_height': list(card)})}
+        try:
+            for st_ in hr.body:
+                F_.stmt(st_, env_)
+        except _fold._Return as r_:
+            return bool(r_.v)
+        return False
+    try:
+        for c_ in cells:
+            for card in ([c_], ['o', c_]):
+                if _hr(card) != c_.endswith('r'):
+                    return (card, _hr(card))
+    except Exception:
+        return 'unfoldable'
+    return None
